@@ -936,6 +936,13 @@ class Interp:
                 raise Raised("AttributeError") from None
         if isinstance(obj, type) and attr in ("__name__", "__qualname__", "__module__"):
             return getattr(obj, attr)
+        if (isinstance(obj, type) or type(obj).__module__ == "typing") and attr in ("__bases__", "__mro__", "__orig_bases__", "__origin__", "__args__", "__doc__",
+                                                                                     "__name__", "__qualname__", "__module__", "__parameters__"):
+            # introspection data of a class object handed in by a rule (synthesised there, never griffe's or the analysed project's)
+            try:
+                return getattr(obj, attr)
+            except AttributeError:
+                raise Raised("AttributeError") from None
         if type(obj).__module__ == "re" and type(obj).__name__ in ("Pattern", "Match"):
             if attr in ("pattern", "flags", "groups", "groupindex", "string", "pos", "endpos", "lastindex", "lastgroup", "re") and not callable(getattr(obj, attr)):
                 return getattr(obj, attr)
